@@ -64,7 +64,7 @@ static const int C_BOUND = 8;
 struct Stats
 {
     long long st = 0, tr = 0;
-    long long singular = 0, nonsingular = 0, det_ge1 = 0, det_lt1 = 0, affine = 0, general = 0;
+    long long singular = 0, nonsingular = 0, det_ge1 = 0, det_lt1 = 0, affine = 0, general = 0, det_subnormal = 0;
     long long gj_prov = 0, gj_unprov = 0, gj_unprov_ident = 0, pert = 0, pert_skipped = 0, pert_singular = 0;
     double    w_inv = 0, w_gj = 0, w_pert = 0, w_jump = 0;
     // dim: "2x2" / "3x3" / "4x4" — the branch classes are kept per dimension so that "both scaling
@@ -74,6 +74,7 @@ struct Stats
         R ().add ("states", st); R ().add ("evaluations", st); R ().add ("transitions", tr);
         R ().cls ("singular." + dim, singular); R ().cls ("nonsingular." + dim + ".generic", nonsingular);
         if (det_ge1 + det_lt1) { R ().cls ("det-branch.|det|>=1." + dim, det_ge1); R ().cls ("det-branch.|det|<1." + dim, det_lt1); }
+        if (det_subnormal) R ().cls ("det-branch.subnormal-determinant-below-1/max." + dim, det_subnormal);
         if (affine + general) { R ().cls ("path.affine-last-column." + dim, affine); R ().cls ("path.general." + dim + ".generic", general); }
         if (gj_prov + gj_unprov) R ().cls ("gauss-jordan.singular.exact-zero-pivot-provable." + dim, gj_prov);
         R ().add ("gj_singular_unprovable_cases", gj_unprov);
